@@ -2,8 +2,9 @@
 From Coq Require Import Lia ZifyBool.
 From Verif Require Import model.Distributor.
 
-Definition ev_group (e : devent) : Z := match e with Arrive g _ => g | Finish g _ => g end.
-Definition lbl_group (l : dlabel) : Z := match l with LA g _ => g | LF g _ => g | LS g _ => g end.
+(* a restart belongs to no component group: it carries the reserved label -1 *)
+Definition ev_group (e : devent) : Z := match e with Arrive g _ => g | Finish g _ => g | Restart => -1 end.
+Definition lbl_group (l : dlabel) : Z := match l with LA g _ => g | LF g _ => g | LS g _ => g | LR => -1 end.
 Definition ev_in (g : Z) (e : devent) : bool := Z.eqb (ev_group e) g.
 Definition lbl_in (g : Z) (l : dlabel) : bool := Z.eqb (lbl_group l) g.
 
@@ -28,7 +29,7 @@ Definition pend_inv (st : dstate) : Prop := forall g, pending st g <> None -> in
 
 Lemma pend_inv_step st e : pend_inv st -> pend_inv (fst (dstep st e)).
 Proof.
-  intros HI g. destruct e as [g0 r|g0 ok]; cbn.
+  intros HI g. destruct e as [g0 r|g0 ok|]; cbn; [| |apply HI].
   - destruct (inflight st g0) eqn:Ei; cbn.
     + destruct (Z.eq_dec g g0) as [->|Hne].
       * rewrite Ei. congruence.
@@ -74,6 +75,7 @@ Fixpoint alt (g : Z) (busy : bool) (tr : list dlabel) : Prop :=
   | LS g' _ :: t => if Z.eqb g' g then busy = false /\ alt g true t else alt g busy t
   | LF g' _ :: t => if Z.eqb g' g then alt g false t else alt g busy t
   | LA _ _ :: t => alt g busy t
+  | LR :: t => alt g busy t
   end.
 
 Lemma alt_busy_finish_first g tr : alt g true tr -> finish_first g tr.
@@ -83,7 +85,8 @@ Proof.
   - destruct pre as [|x pre].
     + cbn in Heq. injection Heq as -> ->. cbn in Ha. rewrite Z.eqb_refl in Ha. destruct Ha; discriminate.
     + cbn in Heq. injection Heq as <- ->.
-      destruct l as [g' r0|g' ok|g' r0]; cbn in Ha.
+      destruct l as [g' r0|g' ok|g' r0|]; cbn in Ha;
+        [| | |destruct (IH Ha pre r post eq_refl) as [ok H]; exists ok; right; exact H].
       * destruct (IH Ha pre r post eq_refl) as [ok H]. exists ok. right. exact H.
       * destruct (Z.eqb_spec g' g) as [->|Hne].
         -- exists ok. left. reflexivity.
@@ -101,7 +104,7 @@ Proof.
   - destruct pre as [|x pre].
     + cbn in Heq. injection Heq as -> ->. cbn in Ha. rewrite Z.eqb_refl in Ha. apply Ha.
     + cbn in Heq. injection Heq as <- ->.
-      destruct l as [g' r0|g' ok|g' r0]; cbn in Ha.
+      destruct l as [g' r0|g' ok|g' r0|]; cbn in Ha; [| | |eapply IH; [exact Ha|reflexivity]].
       * eapply IH; [exact Ha|reflexivity].
       * destruct (Z.eqb g' g); eapply IH; try exact Ha; reflexivity.
       * destruct (Z.eqb g' g); [destruct Ha as [_ Ha]|]; eapply IH; try exact Ha; reflexivity.
@@ -122,7 +125,7 @@ Definition busy_of (st : dstate) (g : Z) : bool :=
 Lemma alt_dtrace g w : forall st, alt g (busy_of st g) (dtrace st w).
 Proof.
   induction w as [|e w IH]; intros st; cbn; [exact I|].
-  destruct e as [g0 r|g0 ok]; cbn.
+  destruct e as [g0 r|g0 ok|]; cbn; [| |apply IH].
   - destruct (inflight st g0) eqn:Ei; cbn.
     + specialize (IH (mkD (inflight st) (upd (pending st) g0 (Some r)))).
       unfold busy_of in *. cbn in IH. exact IH.
@@ -181,7 +184,7 @@ Lemma latest_step st e g aa sa :
   latest_inv (fst (dstep st e)) g (last_arrive_from g aa tr) (last_start_from g sa tr).
 Proof.
   unfold latest_inv. intros HI.
-  destruct e as [g0 r|g0 ok]; cbn.
+  destruct e as [g0 r|g0 ok|]; cbn; [| |exact HI].
   - destruct (inflight st g0) eqn:Ei; cbn.
     + destruct (Z.eqb_spec g0 g) as [->|Hne].
       * rewrite upd_same. split; [reflexivity|congruence].
@@ -305,7 +308,7 @@ Lemma step_frame st e g :
   pending (fst (dstep st e)) g = pending st g /\
   forall o, In o (snd (dstep st e)) -> lbl_group (lbl_of_out o) = ev_group e.
 Proof.
-  intros Hne. destruct e as [g0 r|g0 ok]; cbn in *.
+  intros Hne. destruct e as [g0 r|g0 ok|]; cbn in *; [| |repeat split; intros o []].
   - destruct (inflight st g0); cbn.
     + rewrite upd_other by congruence. repeat split. intros o [].
     + rewrite upd_other by congruence. repeat split. intros o [<-|[]]. reflexivity.
@@ -324,7 +327,7 @@ Lemma step_local s1 s2 e :
   agree (ev_group e) s1 s2 ->
   snd (dstep s1 e) = snd (dstep s2 e) /\ agree (ev_group e) (fst (dstep s1 e)) (fst (dstep s2 e)).
 Proof.
-  unfold agree. intros [Hi Hp]. destruct e as [g r|g ok]; cbn in *.
+  unfold agree. intros [Hi Hp]. destruct e as [g r|g ok|]; cbn in *; [| |repeat split; assumption].
   - rewrite <- Hi. destruct (inflight s1 g) eqn:E1; cbn; rewrite ?upd_same; repeat split; congruence.
   - rewrite <- Hp, <- Hi. destruct (pending s1 g) eqn:E1; cbn; rewrite ?upd_same; [repeat split|].
     destruct (inflight s1 g) eqn:E2; cbn; rewrite ?upd_same; repeat split; congruence.
@@ -343,7 +346,7 @@ Qed.
 Lemma filter_outs_same g e st :
   ev_group e = g -> filter (lbl_in g) (map lbl_of_out (snd (dstep st e))) = map lbl_of_out (snd (dstep st e)).
 Proof.
-  intros <-. destruct e as [g r|g ok]; cbn.
+  intros <-. destruct e as [g r|g ok|]; cbn; [| |reflexivity].
   - destruct (inflight st g); cbn; [reflexivity|]. unfold lbl_in. cbn. rewrite Z.eqb_refl. reflexivity.
   - destruct (pending st g); cbn.
     + unfold lbl_in. cbn. rewrite Z.eqb_refl. reflexivity.
@@ -371,11 +374,11 @@ Proof.
     assert (Ha' : agree (ev_group e) s1 s2) by (rewrite Heq; exact Ha).
     destruct (step_local s1 s2 e Ha') as [Ho Hag].
     replace (lbl_in g (lbl_of_event e)) with true
-      by (unfold lbl_in; destruct e; cbn in *; symmetry; apply Z.eqb_eq; exact Heq).
+      by (unfold lbl_in; destruct e; cbn [lbl_of_event lbl_group ev_group] in *; symmetry; apply Z.eqb_eq; exact Heq).
     rewrite (filter_outs_same g e s1 Heq), Ho. f_equal. f_equal.
     apply IH. rewrite <- Heq. exact Hag.
   - replace (lbl_in g (lbl_of_event e)) with false
-      by (unfold lbl_in; destruct e; cbn in *; symmetry; apply Z.eqb_neq; exact Hne).
+      by (unfold lbl_in; destruct e; cbn [lbl_of_event lbl_group ev_group] in *; symmetry; apply Z.eqb_neq; exact Hne).
     destruct (step_frame s1 e g Hne) as (Hi & Hp & Hall).
     rewrite (filter_outs_other g e _ Hne Hall). cbn [app].
     apply IH. destruct Ha as [Ha1 Ha2]. split; congruence.
